@@ -50,7 +50,7 @@ def cstr(b):
     return "(" + " ++ ".join(chunks) + ")"
 
 USER = "alice@example.com"
-CLS_CODES = {0: None, 1: "multi_literal", 2: "bare_cr_header", 3: "name_unescaped", 4: "flag_atom"}
+CLS_CODES = {0: None, 2: "bare_cr_header", 4: "flag_atom"}
 
 # ---------------------------------------------------------------------------
 # generators
@@ -252,6 +252,9 @@ def shape_class(items, fail):
             return "item_suppressed"
         if it["k"] == "SEC" and it["sec"][0] == "FIELDS" and any(i["sec"][0] == "FIELDS" and n != j for n, i in secs):
             return "item_suppressed"
+        if it["k"] == "SEC" and it["sec"][0] in ("HEADER", "ALL", "TEXT") and any(i["sec"][0] == it["sec"][0] and n != j for n, i in secs):
+            # each handler answers once: the same section requested twice (with and without a range)
+            return "item_suppressed" if not it["partial"] else "partial_range"
         if it["k"] == "SEC" and it["partial"]:
             return "partial_range"
         if it["k"] == "SEC" and it["sec"][0] == "PART":
@@ -571,10 +574,6 @@ def judge_status(name, recv):
 DEFAULT_BOXES = [b"INBOX", b"Sent", b"Drafts", b"Trash", b"Spam"]
 
 
-def name_plain(n):
-    return not any(c in n for c in b'"\\\r\n')
-
-
 # ---------------------------------------------------------------------------
 # in-Coq evaluation
 
@@ -594,8 +593,7 @@ def coq_env(name, e):
 
 COQ_EVAL = """
 Definition cls_code (o : option finding) : nat :=
-  match o with None => 0 | Some multi_literal => 1 | Some bare_cr_header => 2
-             | Some name_unescaped => 3 | Some flag_atom => 4 | Some _ => 5 end.
+  match o with None => 0 | Some bare_cr_header => 2 | Some flag_atom => 4 | Some _ => 5 end.
 Definition items_of (uidmode : bool) (arg : str) : str :=
   if uidmode then uid_fetch_items arg else fetch_items arg.
 Definition seq_of (obs : str) : nat := Z.to_nat (digits_val (fst (span_digits (skipn 2 obs) [])) 0).
@@ -824,8 +822,6 @@ def evaluate(chk, scs, results, label):
                 continue
             if ok:
                 chk.broken_obligation("correspondence wire/fetch no longer checks: observed FETCH line differs from Model/RespondFetch.v for request %r (response itself is well-formed): %r" % (fc["text"], fc["obs_line"][:300]), payload)
-        elif ok and coq_cls == "multi_literal":
-            chk.broken_obligation("model classifies request %r as multi_literal but the implementation's response is well-formed and paired" % fc["text"], payload)
     # LIST / LSUB / STATUS and the rest of the stream
     for si, (sc, an) in enumerate(zip(scs, analyses)):
         known = set(DEFAULT_BOXES) | set(sc["mailboxes"])
@@ -833,20 +829,16 @@ def evaluate(chk, scs, results, label):
             segs = mb.split(b"/")
             for j in range(1, len(segs)):
                 known.add(b"/".join(segs[:j]))
-        hostile_names = [mb for mb in known if not name_plain(mb)]
+        # since the F15 fix no mailbox name excuses a malformed LIST/LSUB/STATUS line
         for lc in an["lists"]:
             for ok, why, line in judge_list(lc["kw"], lc["recv"], known):
-                # excused only when the failing line is the line of a stored name with a quote/backslash
-                mine = [mb for mb in hostile_names if line.endswith(b'"' + mb + b'"\r\n')]
                 chk.violation("%s \"\" \"*\": %s" % (lc["kw"], why),
-                              {"suite": "wire", "scenario": scenario_payload(sc), "command": lc["kw"], "response": C.latin(lc["recv"][:3000])},
-                              cls="name_unescaped" if mine else None)
+                              {"suite": "wire", "scenario": scenario_payload(sc), "command": lc["kw"], "response": C.latin(lc["recv"][:3000])})
         for st in an["status"]:
             ok, why = judge_status(st["name"], st["recv"])
             if not ok:
                 chk.violation("STATUS %r: %s" % (st["name"], why),
-                              {"suite": "wire", "scenario": scenario_payload(sc), "command": "STATUS", "response": C.latin(st["recv"][:2000])},
-                              cls="name_unescaped" if not name_plain(st["name"]) else None)
+                              {"suite": "wire", "scenario": scenario_payload(sc), "command": "STATUS", "response": C.latin(st["recv"][:2000])})
     chk.cov["wire_fetch_cases_" + label] = len(cases)
     chk.cov["wire_model_equal_" + label] = sum(1 for x in mc if x == "0")
     chk.cov["wire_spec_true_" + label] = sum(1 for x in sc_ if x == "1")
